@@ -1,5 +1,7 @@
 import EpgVerif.Props.C08
 import EpgVerif.Tie.ApplySites
+import EpgVerif.Props.C04
+import EpgVerif.Props.C13Cap
 open EpgVerif.Props.C08
 #print axioms wf_pointwise
 #print axioms wf_matApply
@@ -15,3 +17,8 @@ open EpgVerif.Props.C08
 #print axioms only_PD_changes_equilibrium
 #print axioms wf_init
 #print axioms EpgVerif.Tie.ApplySites.sites_as_modelled
+#print axioms EpgVerif.Props.C04.wfn_init
+#print axioms EpgVerif.Props.C04.wfn_point
+#print axioms EpgVerif.Props.C04.wfn_shift
+#print axioms EpgVerif.Props.C13.wfn_capShift
+#print axioms EpgVerif.Props.C13.get_capRun
